@@ -703,3 +703,219 @@ func RAtomFlags(c *core.Ctx) {
 		c.Anchor("calls of canBeMadeAtomic")
 	}
 }
+
+// ---------------------------------------------------------------------------
+// R-LAZYBUF: a lazily started builder is fed under the flag it is read under.
+// Scanners that usually return a slice of the pattern switch to a
+// strings.Builder when the first escape is met: they copy what was scanned so
+// far, set a flag, and from then on append EVERY character; at the end the
+// flag decides between sb.String() and the slice.  Appending under some other
+// condition (only the escaped characters) returns a name with holes in it.
+// ---------------------------------------------------------------------------
+
+func RLazyBuf(c *core.Ctx) {
+	c.Rule("R-LAZYBUF", "in package syntax, wherever a function returns builder.String() under `if F` (F a local bool) and something else otherwise, every write to that builder is guarded by a condition on the same F (`if F`, or the `if !F` block that starts the builder): what is appended and what is returned are decided by one flag", 1)
+	p := c.P
+	syn := p.Pkg("syntax")
+	info := syn.TypesInfo
+	n := 0
+	for _, fd := range p.FuncDecls(syn) {
+		if fd.Body == nil || p.IsTestFile(fd.Pos()) {
+			continue
+		}
+		// if F { return sb.String(), … }
+		var flag, builder types.Object
+		ast.Inspect(fd.Body, func(x ast.Node) bool {
+			ifs, ok := x.(*ast.IfStmt)
+			if !ok {
+				return true
+			}
+			id, ok := ast.Unparen(ifs.Cond).(*ast.Ident)
+			if !ok || len(ifs.Body.List) != 1 {
+				return true
+			}
+			ret, ok := ifs.Body.List[0].(*ast.ReturnStmt)
+			if !ok || len(ret.Results) == 0 {
+				return true
+			}
+			call, ok := ast.Unparen(ret.Results[0]).(*ast.CallExpr)
+			if !ok {
+				return true
+			}
+			se, ok := call.Fun.(*ast.SelectorExpr)
+			if !ok || se.Sel.Name != "String" {
+				return true
+			}
+			bid, ok := ast.Unparen(se.X).(*ast.Ident)
+			if !ok {
+				return true
+			}
+			if _, nm := core.NamedOf(info.TypeOf(bid)); nm != "Builder" && nm != "Buffer" {
+				return true
+			}
+			flag, builder = info.ObjectOf(id), info.ObjectOf(bid)
+			return true
+		})
+		if flag == nil || builder == nil {
+			continue
+		}
+		name := core.DeclName(syn, fd)
+		c.Visit(name)
+		var stack []ast.Node
+		cnt := 0
+		ast.Inspect(fd.Body, func(x ast.Node) bool {
+			if x == nil {
+				stack = stack[:len(stack)-1]
+				return true
+			}
+			stack = append(stack, x)
+			call, ok := x.(*ast.CallExpr)
+			if !ok {
+				return true
+			}
+			se, ok := call.Fun.(*ast.SelectorExpr)
+			if !ok || len(se.Sel.Name) < 5 || se.Sel.Name[:5] != "Write" {
+				return true
+			}
+			bid, ok := ast.Unparen(se.X).(*ast.Ident)
+			if !ok || info.ObjectOf(bid) != builder {
+				return true
+			}
+			cnt++
+			n++
+			guard := ""
+			okGuard := false
+			for i := len(stack) - 2; i >= 0; i-- {
+				ifs, ok := stack[i].(*ast.IfStmt)
+				if !ok || !(ifs.Body.Pos() <= call.Pos() && call.End() <= ifs.Body.End()) {
+					continue
+				}
+				guard = types.ExprString(ifs.Cond)
+				mentions := false
+				ast.Inspect(ifs.Cond, func(y ast.Node) bool {
+					if id, ok := y.(*ast.Ident); ok && info.ObjectOf(id) == flag {
+						mentions = true
+					}
+					return true
+				})
+				if mentions {
+					okGuard = true
+				}
+				break
+			}
+			c.Check(okGuard, fmt.Sprintf("%s / write #%d to the lazily started builder is decided by %s", name, cnt, flag.Name()), call.Pos(),
+				"the builder's content is returned when %s is set, but this write is guarded by `%s`: characters scanned while %s is set and that condition is false are missing from the result", flag.Name(), guard, flag.Name())
+			return true
+		})
+	}
+	if n == 0 {
+		c.Anchor("functions returning builder.String() under a flag")
+	}
+}
+
+// ---------------------------------------------------------------------------
+// R-GAPRUNE: the rune that is asked about is the rune that is excluded.
+// canonicalize reduces "categories + every rune but g" either to "anything"
+// (when the categories contain g) or to [^g].  Both arms talk about the one
+// missing rune g: the membership test and the range built in the other arm
+// must use the same expression.
+// ---------------------------------------------------------------------------
+
+func RGapRune(c *core.Ctx) {
+	c.Rule("R-GAPRUNE", "in canonicalize, where `if c.charInCategories(E) { everything } else { negate; ranges = [E', E'] }` decides how a class missing one rune is normalised, E and E' are the same expression (the missing rune)", 1)
+	p := c.P
+	syn := p.Pkg("syntax")
+	info := syn.TypesInfo
+	fd, _ := p.DeclOf(p.LookupFunc("syntax", "CharSet.canonicalize"))
+	cic := p.LookupFunc("syntax", "CharSet.charInCategories")
+	if fd == nil || cic == nil {
+		c.Anchor("CharSet.canonicalize / charInCategories")
+		return
+	}
+	c.Visit("syntax.(*CharSet).canonicalize")
+	n := 0
+	ast.Inspect(fd.Body, func(x ast.Node) bool {
+		ifs, ok := x.(*ast.IfStmt)
+		if !ok || ifs.Else == nil {
+			return true
+		}
+		call, ok := ast.Unparen(ifs.Cond).(*ast.CallExpr)
+		if !ok || core.Callee(info, call) != cic || len(call.Args) != 1 {
+			return true
+		}
+		tested := types.ExprString(ast.Unparen(call.Args[0]))
+		// composite literal SingleRange{A, B} in the else arm
+		ast.Inspect(ifs.Else, func(y ast.Node) bool {
+			cl, ok := y.(*ast.CompositeLit)
+			if !ok || len(cl.Elts) != 2 {
+				return true
+			}
+			if _, nm := core.NamedOf(info.TypeOf(cl)); nm != "SingleRange" {
+				return true
+			}
+			a, b := types.ExprString(ast.Unparen(cl.Elts[0])), types.ExprString(ast.Unparen(cl.Elts[1]))
+			n++
+			c.Check(a == tested && b == tested, fmt.Sprintf("canonicalize / the rune tested against the categories is the rune excluded (#%d)", n), call.Pos(),
+				"charInCategories is asked about `%s` but the other arm excludes `%s`: the decision between 'anything' and 'all but one rune' is made for a neighbouring rune", tested, a)
+			return true
+		})
+		return true
+	})
+	if n == 0 {
+		c.Anchor("the single-missing-rune normalisation in canonicalize")
+	}
+}
+
+// ---------------------------------------------------------------------------
+// R-SELFSHIFT: shifting a slice right inside itself copies ALL of the old
+// content: copy(s[k:], s).  copy(s[k:], s[:k]) moves only the first k elements;
+// when more than k were there the tail keeps stale data.
+// ---------------------------------------------------------------------------
+
+func RSelfShift(c *core.Ctx) {
+	c.Rule("R-SELFSHIFT", "every copy whose destination and source are slices of the same field-held slice (an in-place shift) takes the whole old content as source; the source is never the prefix [:k] of the very k the destination starts at", 1)
+	p := c.P
+	n := 0
+	baseOf := func(v ssa.Value) (ssa.Value, *ssa.Slice) {
+		if sl, ok := v.(*ssa.Slice); ok {
+			return sl.X, sl
+		}
+		return v, nil
+	}
+	for _, fn := range p.ModuleFuncs() {
+		name := core.SSAName(fn)
+		cnt := 0
+		for _, b := range fn.Blocks {
+			for _, ins := range b.Instrs {
+				call, ok := ins.(*ssa.Call)
+				if !ok {
+					continue
+				}
+				bi, ok := call.Call.Value.(*ssa.Builtin)
+				if !ok || bi.Name() != "copy" {
+					continue
+				}
+				db, ds := baseOf(call.Call.Args[0])
+				sb, ss := baseOf(call.Call.Args[1])
+				if ds == nil || ds.Low == nil {
+					continue
+				}
+				if !(db == sb || core.SameValue(db, sb)) {
+					continue
+				}
+				if ld, ok := db.(*ssa.UnOp); !ok || core.FieldVarOfAddr(ld.X) == nil {
+					continue // a local scratch slice (the doubling idiom copy(r[n:], r[:n]) fills a fresh buffer)
+				}
+				cnt++
+				n++
+				c.Visit(name)
+				bad := ss != nil && ss.Low == nil && ss.High != nil && (ss.High == ds.Low || core.SameValue(ss.High, ds.Low))
+				c.Check(!bad, fmt.Sprintf("%s / in-place shift #%d copies the whole old content", name, cnt), call.Pos(),
+					"copy(s[k:], s[:k]) moves only the first k elements to the right; if the slice held more than k elements before it was extended, the rest keeps stale data (the merged literal \"ab.cd\" becomes \"ab.cb\")")
+			}
+		}
+	}
+	if n == 0 {
+		c.Anchor("in-place shifts (copy within one slice)")
+	}
+}
